@@ -174,9 +174,80 @@ pub fn pad_record(root: &Root, target: usize, rng: &mut Rng) -> Option<Root> {
     None
 }
 
+/// A game given as a FEN that names an en-passant square FIDE-style (after a double step nobody
+/// can answer by a capture), whose search tree contains a double step on the SAME file that can
+/// be answered by an en-passant capture; then the board after that double step written with `-`
+/// (the pawn could have arrived by single steps), searched no deeper on the same table. Any
+/// disagreement between the state kept for the first game and its hash files the capture under
+/// the second position.
+pub fn spurious_ep_prelude(rng: &mut Rng) -> Vec<HStep> {
+    let c = rng.below(8) as i32;
+    let n = if c == 0 { 1 } else if c == 7 { 6 } else if rng.chance(1, 2) { c - 1 } else { c + 1 };
+    let white_pushed = rng.chance(1, 2);
+    // grid[rank][file], rank 0 = first rank
+    let render = |g: &[[char; 8]; 8]| -> String {
+        let mut rows = vec![];
+        for r in (0..8).rev() {
+            let mut row = String::new();
+            let mut e = 0;
+            for f in 0..8 {
+                if g[r][f] == ' ' {
+                    e += 1;
+                } else {
+                    if e > 0 {
+                        row.push_str(&e.to_string());
+                        e = 0;
+                    }
+                    row.push(g[r][f]);
+                }
+            }
+            if e > 0 {
+                row.push_str(&e.to_string());
+            }
+            rows.push(row);
+        }
+        rows.join("/")
+    };
+    let mut g = [[' '; 8]; 8];
+    let kf = if c <= 3 { 6 } else { 1 };
+    g[0][kf] = 'K';
+    g[7][kf] = 'k';
+    let file = (b'a' + c as u8) as char;
+    let (a, b);
+    if white_pushed {
+        // White has just played c2-c4 (nobody can take); Black's c7-c5 can be taken by the pawn on n5
+        g[3][c as usize] = 'P';
+        g[4][n as usize] = 'P';
+        g[6][c as usize] = 'p';
+        a = format!("{} b - {}3 0 1", render(&g), file);
+        g[6][c as usize] = ' ';
+        g[4][c as usize] = 'p';
+        b = format!("{} w - - 0 2", render(&g));
+    } else {
+        g[4][c as usize] = 'p';
+        g[3][n as usize] = 'p';
+        g[1][c as usize] = 'P';
+        a = format!("{} w - {}6 0 1", render(&g), file);
+        g[1][c as usize] = ' ';
+        g[3][c as usize] = 'P';
+        b = format!("{} b - - 0 1", render(&g));
+    }
+    let ra = Root { fen: a, moves: vec![] };
+    let rb = Root { fen: b, moves: vec![] };
+    if ra.shadow().is_none() || rb.shadow().is_none() {
+        return vec![];
+    }
+    let step = |r: &Root, l: u8| HStep { root: r.clone(), limit: Some(l), stop_at: 0, clear_table: false };
+    let d = 4 + rng.below(2) as u8;
+    vec![step(&ra, d), step(&rb, 1), step(&rb, 2), step(&ra, 2), step(&rb, 3)]
+}
+
 /// Two positions that differ only in the en-passant file (one of them: none), searched one after
 /// the other on one table, in both orders, the second no deeper than the first.
 pub fn ep_twin_prelude(rng: &mut Rng) -> Vec<HStep> {
+    if rng.chance(1, 3) {
+        return spurious_ep_prelude(rng);
+    }
     for _ in 0..200 {
         let i = rng.next() % gen::family_size(gen::Family::EnPassant);
         let Some(p) = gen::family_nth(gen::Family::EnPassant, i) else { continue };
